@@ -33,3 +33,4 @@ def run(repo, res, tier):
     _eff.rule_shared_class_state(repo, res)
     _eff.rule_memo(repo, res)
     _hk.rule_aggcls(repo, res)
+    _hk.rule_v_eq(repo, res)
